@@ -656,6 +656,11 @@ pub fn run(cfg: &Config) -> i32 {
     }
 
     let n = cases.len() as u64;
+    let cases = std::sync::Arc::new(cases);
+    {
+        let cc = cases.clone();
+        set_hang_describer(Box::new(move |i| serde_json::to_value(&cc[i as usize].1).unwrap_or(Value::Null)));
+    }
     let mut total = par_for(cfg, n, |i, l| {
         let (lab, case) = &cases[i as usize];
         if l.want_sample(lab) {
@@ -664,6 +669,7 @@ pub fn run(cfg: &Config) -> i32 {
         l.count(&format!("cases:{}", lab.split('/').next().unwrap_or("")), 1);
         judge(cfg, case, l);
     });
+    clear_hang_describer();
     let ramp = ramps(cfg);
     total.merge(ramp);
 
@@ -891,6 +897,10 @@ fn ramps_filtered(cfg: &Config, only: Option<&str>) -> Local {
     let sel: Vec<&Ramp> = list.iter().filter(|r| only.map(|o| o == r.name).unwrap_or(true)).collect();
     let base = cfg.tier.pick(500usize, 2000usize);
     let n = sel.len() as u64;
+    {
+        let names: Vec<String> = sel.iter().map(|r| r.name.to_string()).collect();
+        set_hang_describer(Box::new(move |i| json!({"Ramp": {"name": names[i as usize]}})));
+    }
     par_for(cfg, n, |i, l| {
         let r = sel[i as usize];
         let mut times: Vec<(usize, usize, u64)> = Vec::new();
@@ -900,6 +910,7 @@ fn ramps_filtered(cfg: &Config, only: Option<&str>) -> Local {
             let input = (r.make)(size);
             let mut best = u64::MAX;
             for _ in 0..3 {
+                heartbeat();
                 let t0 = thread_cpu_ns();
                 let res = guard(|| (r.run)(&input));
                 let dt = thread_cpu_ns() - t0;
